@@ -20,6 +20,8 @@ type Walker struct {
 	// QuietAborts: a proc counts as blocked for the quiescence test only after this many consecutive aborts in
 	// the same state (an abort may depend on the choices it was given; retries step through the first choice point); default 6
 	QuietAborts int
+	// OnStep, if set, sees (and may amend) every observation before it is recorded (e.g. to maintain shadow state)
+	OnStep func(*Obs)
 }
 
 // EnvAction is a step of the spec that no generated archetype performs (a plain PlusCal process of the
@@ -192,6 +194,9 @@ func (w *Walker) Walk(steps int) []Obs {
 		obs, ok := w.Next()
 		if !ok {
 			break
+		}
+		if w.OnStep != nil {
+			w.OnStep(&obs)
 		}
 		out = append(out, obs)
 		if len(obs.Outcome) >= 5 && obs.Outcome[:5] == "error" || obs.Outcome == "hang" {
